@@ -390,7 +390,8 @@ def rule_platform_twins(ctx: Ctx, rule: str) -> None:
                         pg = [f'{t}:{pol}' for t, pol in g if _mentions_platform(t)]
                         if pg:
                             ok, how = True, f'under {pg[0]}'
-                    ctx.ob(rule, f'{fi.fq}/{nm}@{n_sites}', ok, repo.loc(m.name, node), 'selected against its twin on a platform atom',
+                    arm = '+'.join(sorted(f'{t}={pol}' for t, pol in q.guards(node) if 'isinstance' in t))
+                    ctx.ob(rule, f'{fi.fq}/{nm}' + (f'[{arm}]' if arm else ''), ok, repo.loc(m.name, node), 'selected against its twin on a platform atom',
                            how or 'used unconditionally',
                            witness="on Linux glob('*', flags=NODIR) drops the regular file named `a\\`; pathlib results with a `\\.` segment are mangled")
     ctx.floor(rule, 'references to platform twins', n_sites, 20)
